@@ -36,7 +36,7 @@ def cfg_includes():
     if os.path.exists(os.path.join(REPO, "include/private/autogen/config.h")):
         inc += ["-I" + os.path.join(REPO, "include/private/autogen"), "-I" + os.path.join(REPO, "include/hwloc/autogen")]
     else:
-        inc += ["-I" + os.path.join(VERIF, ".cfg/include")]
+        inc += ["-I" + os.path.join(VERIF, ".cfg/include"), "-I" + os.path.join(VERIF, ".cfg/include/private/autogen"), "-I" + os.path.join(VERIF, ".cfg/include/hwloc/autogen")]
     inc += ["-I" + REPO, "-I" + os.path.join(REPO, "include"), "-I" + os.path.join(REPO, "hwloc"),
             "-I" + os.path.join(REPO, "utils/hwloc"), "-I" + os.path.join(VERIF, "env"), "-I" + os.path.join(VERIF, "harness"),
             "-I/usr/include/libxml2"]
@@ -159,7 +159,10 @@ def cbmc_cmd(h, tier, gb):
     if uws:
         cmd += ["--unwindset", ",".join("%s:%d" % kv for kv in uws.items())]
     cmd += ["--unwinding-assertions", "--drop-unused-functions", "--no-malloc-may-fail",
-            "--object-bits", str(tier_opt(h, tier, "object_bits", 10))]
+            "--object-bits", str(tier_opt(h, tier, "object_bits", 10)),
+            # arrays above 64 elements are otherwise not field-sensitive: symex then cannot constant-propagate
+            # through text buffers and every string loop is unwound to its bound
+            "--max-field-sensitivity-array-size", str(tier_opt(h, tier, "fs_array", 256))]
     checks = h.get("checks", "safety")
     if checks == "functional":
         cmd += ["--no-standard-checks"]
